@@ -72,8 +72,8 @@ CHECKS = {
         "os.walk results / reversed creation order / twice into a pre-populated directory, and in a "
         "subprocess under a drawn PYTHONHASHSEED; outputs must be byte-identical. A fresh interpreter then "
         "imports eolib and checks every declared type (class, __module__, exported from its public "
-        "subpackage and from eolib). Sampled: ~320 trees quick, ~4000 thorough. Three open known findings "
-        "(import cycles, empty enum) are pinned and excluded by construction.",
+        "subpackage and from eolib). Sampled: ~320 trees quick, ~4000 thorough. Two open known findings "
+        "(import cycles caused by the star-importing package layout) are pinned and excluded by construction.",
         "Trusted: the harness' own naming convention (spec.pascal_to_snake) for expected module paths; "
         "walk orders are simulated; one interpreter (3.12.1).",
         "DESIGN.md 5/C18",
@@ -172,7 +172,7 @@ CHECKS = {
         "checked after every step; every integer 0..64008 for 8 fixed and several drawn enums. Part (b): the enum "
         "classes of ~640 (quick) / ~8000 (thorough) generated protocol packages go through the same oracle; "
         "read-then-write of unknown ordinals is exercised by C01/C03.",
-        "Trusted: Python int semantics as the model; zero-member enums are excluded (open known finding KF3).",
+        "Trusted: Python int semantics as the model.",
         "DESIGN.md 5/C14",
     ),
     "C16": (
